@@ -247,6 +247,9 @@ func (it *Interp) modelPrefix(s *State, name string, args []AV) AV {
 // makeFreeNilable: a structure filled by reflection-based unmarshalling of
 // hostile data; every pointer, slice and interface inside may be nil or not.
 func (it *Interp) makeFreeNilable(s *State, dst AV) {
+	if iv, isIface := dst.(IfaceV); isIface && iv.Val != nil {
+		dst = iv.Val
+	}
 	p, ok := dst.(PtrV)
 	if !ok || p.Nil || p.Top {
 		return
@@ -271,9 +274,9 @@ func (it *Interp) makeFreeNilable(s *State, dst AV) {
 				}
 				return x
 			}
-			return PtrV{Top: true, MayNil: true}
+			return PtrV{Top: true, MayNil: true, Hostile: true}
 		case SliceV:
-			return SliceV{Top: true, MayNil: true}
+			return SliceV{Top: true, MayNil: true, Hostile: true, Arr: it.newCell(s, ArrV{N: 0})}
 		case IfaceV:
 			return IfaceV{Top: true, MayNil: true}
 		case MapV:
